@@ -9,4 +9,16 @@ Section SolveOps.
     if Nat.eqb (length x) (dv_rows dv * dv_n dv) then k (reshape (dv_rows dv) (dv_n dv) x) else SRaiseValueError.
   Definition step_reshape_or_raise (dv : devview A) (x : list A) (k : list (list A) -> stres A) : stres A :=
     if Nat.eqb (length x) (dv_rows dv * dv_n dv) then k (reshape (dv_rows dv) (dv_n dv) x) else StRaiseValueError.
+  (* ---- utils.project(p, x0, bounds, constraints, solver_options): what it asks of the optimiser ---- *)
+  Local Open Scope num_scope.
+  Definition uproject_defaults : sopts A := {| so_ftol := Some (n1 / nofZ 1000000000); so_maxiter := Some 200%Z; so_disp := Some false |}.
+  Definition uproject_options (user : sopts A) : sopts A :=
+    {| so_ftol := over (so_ftol user) (so_ftol uproject_defaults); so_maxiter := over (so_maxiter user) (so_maxiter uproject_defaults);
+       so_disp := over (so_disp user) (so_disp uproject_defaults) |}.
+  (* minimise |s - p|^2 from x0 inside the bounds and constraints, gradient 2 (s - p) *)
+  Definition uproject_problem (pc : projcall A) : problem A :=
+    {| pb_x0 := pc_x0 pc; pb_fun := fun s => vsum (map nsq (vsub s (pc_p pc))); pb_jac := fun s => vscale (nofZ 2) (vsub s (pc_p pc));
+       pb_bounds := pc_bounds pc; pb_cons := pc_cons pc |}.
+  (* (o.x.reshape(x0.shape), o): the report is returned whatever it says *)
+  Definition uproject_model (minimize : problem A -> optresult A) (pc : projcall A) : optresult A := minimize (uproject_problem pc).
 End SolveOps.
